@@ -317,6 +317,14 @@ MUTANTS += [
         (PA, "    pub fn block(statements: Vec<AST>) -> Self {\n        Self::Block(statements.into_boxed())", "    pub fn block(mut statements: Vec<AST>) -> Self {\n        if statements.len() == 1 { return statements.remove(0); }\n        Self::Block(statements.into_boxed())")]),
 ]
 
+MUTANTS += [
+    dict(id="M6i", props=["C06"], what="compile prefers the input's extension over --input-format", edits=[
+        (M, "        if self.input_format.is_some() {\n            self.input_format\n        } else {\n            self.selected_input().unwrap().extension().map(|s| {\n                ASTSerializer::from_extension(s.as_str())\n            }).flatten()\n        }",
+            "        self.selected_input().unwrap().extension().map(|s| {\n            ASTSerializer::from_extension(s.as_str())\n        }).flatten().or(self.input_format)")]),
+    dict(id="M6j", props=["C06"], what="parse without --format and -o defaults to JSON", edits=[
+        (M, "                .unwrap_or(ASTSerializer::INTERNAL)", "                .unwrap_or(ASTSerializer::JSON)")]),
+]
+
 MUTANTS = [m for m in MUTANTS if m["edits"]]
 
 BENIGN = [
